@@ -38,8 +38,29 @@ RE_CHAR = re.compile(
     r"'\\[\\\"rnt0']'|'\\x[0-9a-fA-F]{2}'|'\\u\{[0-9a-fA-F]{2,6}\}'|'(?s:.)'"
 )
 RE_LINE_COMMENT = re.compile(r"//(?!/|!).*")
-# "/*" ~ (block_comment | !"*/" ~ ANY)* ~ "*/", without backtracking into iterations.
-RE_BLOCK_COMMENT = re.compile(r"/\*(?:(?R)|(?!\*/)(?s:.))*+\*/")
+
+
+def block_comment_ends(grammar: str) -> list[int | None]:
+    """Return where a block comment body ends, for every index it could start at.
+
+    `ends[i]` is the index after the `*/` that closes a comment whose body is
+    scanned from `i`, or `None` if it's never closed. A block comment is
+    `"/*" ~ (block_comment | !"*/" ~ ANY)* ~ "*/"`. Working backwards makes
+    this linear in the size of the grammar, a recursive regex or scan is
+    exponential in the number of unclosed nested openers.
+    """
+    size = len(grammar)
+    ends: list[int | None] = [None] * (size + 3)
+    for i in range(size - 1, -1, -1):
+        nested = ends[i + 2] if grammar.startswith("/*", i) else None
+        if nested is not None:
+            ends[i] = ends[nested]
+        elif grammar.startswith("*/", i):
+            ends[i] = i + 2
+        else:
+            ends[i] = ends[i + 1]
+    return ends
+
 
 ESCAPES = frozenset(["n", "r", "t", "u", "x", "\\", '"', "0", "'"])
 
@@ -52,13 +73,14 @@ def tokenize(grammar: str) -> list[Token]:
 class Scanner:
     """pest grammar lexical scanner."""
 
-    __slots__ = ("tokens", "start", "pos", "grammar")
+    __slots__ = ("tokens", "start", "pos", "grammar", "_block_comment_ends")
 
     def __init__(self, grammar: str) -> None:
         self.tokens: list[Token] = []
         self.start = 0
         self.pos = 0
         self.grammar = grammar
+        self._block_comment_ends: list[int | None] | None = None
 
         state: StateFn | None = self.scan_grammar
         while state is not None:
@@ -111,10 +133,24 @@ class Scanner:
                 (
                     self.skip(RE_WHITESPACE),
                     self.skip(RE_LINE_COMMENT),
-                    self.skip(RE_BLOCK_COMMENT),
+                    self.skip_block_comment(),
                 )
             ):
                 break
+
+    def skip_block_comment(self) -> bool:
+        if not self.grammar.startswith("/*", self.pos):
+            return False
+
+        if self._block_comment_ends is None:
+            self._block_comment_ends = block_comment_ends(self.grammar)
+
+        end = self._block_comment_ends[self.pos + 2]
+        if end is None:
+            return False
+
+        self.pos = self.start = end
+        return True
 
     def error(self, message: str) -> Never:
         token = Token(
